@@ -95,14 +95,86 @@ def q_c03_reconcile_validation(bodies):
     verdict, detail = solve(smt.script(goal))
     g2 = {"unsat": "holds", "sat": "violated"}.get(verdict, "inconclusive")
     d2 = "accepted and not(validate_empty ok): %s" % verdict
-    verdicts = [g1, g2]
+    # G3 (MIR data flow): the clock value validate_entry compares the timestamp with is the unmodified result of
+    # `system_time_now()` on both ingress paths (validate_entry itself adds the allowed skew: the Kani harness
+    # validate_entry_accepts); a hoisted "latest acceptable timestamp" would add it twice
+    g3, d3 = _c03_clock_flow(bodies, body, ve_calls)
+    verdicts = [g1, g2, g3]
     overall = "violated" if "violated" in verdicts else ("inconclusive" if "inconclusive" in verdicts else "holds")
     return dict(name=name, property="C03", verdict=overall,
-                detail="G1 (validate_entry gates acceptance): %s [%s]; G2 (validate_empty gates acceptance): %s [%s]; paths=%d" % (g1, d1, g2, d2, len(paths)),
+                detail="G1 (validate_entry gates acceptance): %s [%s]; G2 (validate_empty gates acceptance): %s [%s]; G3 (the clock handed to validate_entry is system_time_now() itself, on both paths): %s [%s]; paths=%d" % (g1, d1, g2, d2, g3, d3, len(paths)),
                 functions=[body.name, "validate_entry (uninterpreted: decided by the Kani harness validate_entry_accepts)",
                            "validate_empty (uninterpreted: decided by the Kani harness validate_empty_table)"],
-                queries=2, cases=len(paths) + 2, witness="d3",
-                check_message="a reconciliation message only delivers entries that pass validate_entry and validate_empty")
+                queries=2, cases=len(paths) + 2, witness="d3,c03clock",
+                check_message=("a reconciliation message only delivers entries that pass validate_entry and validate_empty" if g3 == "holds" or "violated" in (g1, g2)
+                               else "entries are compared with the local clock plus the allowed skew exactly once, on both ingress paths"))
+
+
+def _c03_defs(body, place):
+    """all statements / call terminators of `body` that assign `place` (textual)"""
+    out = []
+    pat = re.escape(place) + " = "
+    for blk in body.blocks.values():
+        for st in blk:
+            if re.match("^" + pat, st):
+                out.append(st)
+    return out
+
+
+def _c03_trace_clock(body, place, depth=0):
+    """is `place` (a local or a coroutine state field) assigned exactly once, from `system_time_now()` — possibly through
+    plain copies / moves / references?  -> (True | False | None, explanation)"""
+    if depth > 6:
+        return None, "copy chain too long"
+    defs = _c03_defs(body, place)
+    if len(defs) != 1:
+        return (None if not defs else False), "%s is assigned %d times" % (place[:40], len(defs))
+    rhs = defs[0].split(" = ", 1)[1]
+    if re.match(r"^system_time_now\(\) -> ", rhs):
+        return True, "system_time_now()"
+    m = re.match(r"^(?:no_retag )?(?:copy |move |&(?:mut )?)(\(?.+?\)?);$", rhs)
+    if m and not re.search(r"[A-Za-z_]\w*\(", m.group(1).split(":")[0]):
+        inner = m.group(1)
+        return _c03_trace_clock(body, inner, depth + 1)
+    return False, "assigned from `%s`" % rhs[:80]
+
+
+def _c03_clock_flow(bodies, closure_body, ve_calls):
+    probs = []
+    # (1) reconciliation path: which captured field reaches validate_entry's first argument, and where it comes from
+    outer = find_body(bodies, r"^sync::<impl at [^>]*>::sync_process_message::\{closure#0\}$", r"Replica<")
+    mfld = re.search(r"\(fld_(\d+) \(deref closure_env", ve_calls[0][0]) if ve_calls else None
+    if len(outer) != 1 or not mfld:
+        return "inconclusive", "outer coroutine / captured clock field not identified (%s)" % (ve_calls[0][0][:40] if ve_calls else "-")
+    k = int(mfld.group(1))
+    cl = re.match(r"^_1: &?(\{closure@[^}]*\})", closure_body.args)
+    site = [st for blk in outer[0].blocks.values() for st in blk if cl and re.match(r"^_\d+ = %s \{" % re.escape(cl.group(1)), st)]
+    if len(site) != 1:
+        return "inconclusive", "closure construction site not found uniquely (%d)" % len(site)
+    fields = Exec.split_args(site[0].split("{", 2)[2].rsplit("}", 1)[0])
+    if k >= len(fields):
+        return "inconclusive", "captured field %d not in %s" % (k, fields)
+    op = re.sub(r"^(copy|move) ", "", fields[k].split(":", 1)[1].strip())
+    ok, why = _c03_trace_clock(outer[0], op)
+    if ok is None:
+        return "inconclusive", "reconciliation path: " + why
+    if not ok:
+        probs.append("reconciliation path: the clock value is " + why)
+    # (2) direct path: validate_entry's first argument in Replica::insert_entry
+    direct = find_body(bodies, r"^sync::<impl at [^>]*>::insert_entry::\{closure#0\}$", r"Replica<")
+    for b in direct:
+        for blk in b.blocks.values():
+            for st in blk:
+                m = re.search(r"= validate_entry::<.*?>\((?:move|copy) (_\d+),", st)
+                if m:
+                    ok2, why2 = _c03_trace_clock(b, m.group(1))
+                    if ok2 is None:
+                        return "inconclusive", "direct path: " + why2
+                    if not ok2:
+                        probs.append("direct path: the clock value is " + why2)
+    if probs:
+        return "violated", "; ".join(probs)
+    return "holds", "both paths read system_time_now() and hand it on unchanged"
 
 
 QUERIES = {
@@ -2007,6 +2079,8 @@ def q_c06_txn_glue(bodies):
                         problems.append(("%s commits only an open write transaction that is older than the commit delay" % label, v))
                     if fi and max(ci) > min(fi):
                         problems.append(("%s never commits after the caller's closure ran" % label, "sat"))
+                if any(re.search(r"set_durability|set_two_phase_commit|set_quick_repair", n) for n in names):
+                    problems.append(("the write transaction every access shares keeps redb's default durability (a flush is only durable if the transaction it commits is)", "sat"))
                 if label != "tables" and ret.startswith("(C_Ok ") and len(fi) != 1:
                     problems.append(("%s runs the caller's closure exactly once on its success path" % label, "sat"))
                 # what the access leaves in the store's transaction slot: a write transaction — the one that was open, unless it
@@ -2051,7 +2125,7 @@ def q_c06_txn_glue(bodies):
     if any(p[1] != "inconclusive" for p in problems):
         verdict = "violated"
     return dict(name=name, property="C06", verdict=verdict, detail="paths=%d; age-commit possible in: %s; problems: %s" % (ncases, may_commit, problems or "none"),
-                functions=funcs, queries=nq, cases=ncases, witness="c06,c06err",
+                functions=funcs, queries=nq, cases=ncases, witness="c06,c06err,c06dur",
                 check_message=(problems[0][0] if problems else "flush commits; one store access is never split by a commit"))
 
 
